@@ -466,6 +466,11 @@ func (h *harness1) armFault(p int) {
 			watch()
 			// make sure a send meets the storm even if the phase's own sends are over
 			w.Go("storm-send", func() {
+				// (the storm may have been armed on a connection that is not Selected yet: a send refused at
+				// the gate never reaches the line, and nothing would ever end this connection)
+				for i := 0; i < 2000 && !h.r.Selected() && !gg.p.Dead && !h.stop; i++ {
+					core.Sleep(2 * time.Millisecond)
+				}
 				h.inCall++
 				c := &call{Kind: kNoW, Phase: h.phase}
 				h.calls = append(h.calls, c)
